@@ -1,0 +1,23 @@
+//go:build verif
+// +build verif
+
+package tcell
+
+import "sync/atomic"
+
+var verifSchedFn atomic.Value // of func(string)
+
+// VerifSetSched installs (or, with nil, removes) the function called at every
+// schedule point.  It is only available with the "verif" build tag.
+func VerifSetSched(f func(point string)) {
+	if f == nil {
+		f = func(string) {}
+	}
+	verifSchedFn.Store(f)
+}
+
+func verifSched(point string) {
+	if f, ok := verifSchedFn.Load().(func(string)); ok && f != nil {
+		f(point)
+	}
+}
